@@ -202,6 +202,12 @@ const (
 	vfKWrap     = "Errorf(%w)"
 )
 
+var (
+	vfLeafSlots = []string{vfKDNSEmb, vfKAddr, vfKDNS, vfKErrno, vfKParse, vfKPlain, vfKInvalid, vfKUnknown,
+		vfKDNSEmb, vfKAddr, vfKDNS, vfKErrno, vfKPlain, vfKAddr}
+	vfParentSlots = []string{vfKOp, vfKWrap, vfKOp, vfKURL, vfKOp, vfKSyscall, vfKDNSWrap, vfKOp, vfKWrap, vfKOp}
+)
+
 type vfChain struct {
 	err      error
 	kinds    []string // outermost first
@@ -271,13 +277,14 @@ func vfSetUnwrapErr(d *net.DNSError, child error) {
 
 func vfLeaf(rt *rapid.T, c *vfChain) {
 	tk := c.tokens
-	k := rapid.IntRange(0, 99).Draw(rt, "leafKind")
-	switch {
-	case k < 22:
+	// rapid's integer draws favour small values: kinds are picked from short
+	// slot tables (weights = multiplicity) so that every kind stays frequent.
+	switch k := rapid.SampledFrom(vfLeafSlots).Draw(rt, "leafKind"); k {
+	case vfKAddr:
 		w := rapid.SampledFrom(vfAddrErrWords).Draw(rt, "addrWord")
 		c.err = &net.AddrError{Err: w, Addr: tk.addrString(rt)}
 		c.kinds, c.descr, c.bearing = []string{vfKAddr}, []string{"AddrError{" + w + "}"}, true
-	case k < 36:
+	case vfKDNS:
 		d := &net.DNSError{Err: rapid.SampledFrom(vfDNSPlainCauses).Draw(rt, "dnsCause"), Name: tk.host(rt)}
 		if rapid.Bool().Draw(rt, "hasServer") {
 			if rapid.IntRange(0, 4).Draw(rt, "srvNamed") == 0 {
@@ -289,13 +296,13 @@ func vfLeaf(rt *rapid.T, c *vfChain) {
 		d.IsTimeout, d.IsTemporary, d.IsNotFound = d.Err == "i/o timeout", rapid.Bool().Draw(rt, "tmp"), d.Err == "no such host"
 		c.err = d
 		c.kinds, c.descr, c.bearing = []string{vfKDNS}, []string{"DNSError{" + d.Err + "}"}, true
-	case k < 52:
+	case vfKDNSEmb:
 		cause, server := vfEmbeddedCause(rt, tk)
 		d := &net.DNSError{Err: cause, Name: tk.host(rt), Server: server, IsTemporary: true,
 			IsTimeout: strings.HasSuffix(cause, "i/o timeout")}
 		c.err = d
 		c.kinds, c.descr, c.bearing, c.embedded = []string{vfKDNSEmb}, []string{"DNSError{embedded socket error}"}, true, true
-	case k < 58:
+	case vfKInvalid:
 		e := net.InvalidAddrError("invalid address " + tk.addrString(rt))
 		if rapid.Bool().Draw(rt, "ptr") {
 			c.err, c.kinds = &e, []string{vfKInvalidP}
@@ -303,7 +310,7 @@ func vfLeaf(rt *rapid.T, c *vfChain) {
 			c.err, c.kinds = e, []string{vfKInvalid}
 		}
 		c.descr, c.bearing = []string{c.kinds[0]}, true
-	case k < 64:
+	case vfKUnknown:
 		// the text of an UnknownNetworkError is a network name, not an address
 		e := net.UnknownNetworkError(rapid.SampledFrom([]string{"tcp7", "udp9", "ip:41", "unixish", ""}).Draw(rt, "netName"))
 		if rapid.Bool().Draw(rt, "ptr") {
@@ -312,11 +319,11 @@ func vfLeaf(rt *rapid.T, c *vfChain) {
 			c.err, c.kinds = e, []string{vfKUnknown}
 		}
 		c.descr = []string{c.kinds[0]}
-	case k < 72:
+	case vfKParse:
 		ty := rapid.SampledFrom([]string{"IP address", "CIDR address", "MAC address"}).Draw(rt, "parseType")
 		c.err = &net.ParseError{Type: ty, Text: tk.addrString(rt)}
 		c.kinds, c.descr, c.bearing = []string{vfKParse}, []string{"ParseError{" + ty + "}"}, true
-	case k < 86:
+	case vfKErrno:
 		e := rapid.SampledFrom(vfErrnos).Draw(rt, "errno")
 		c.err = e
 		c.kinds, c.descr = []string{vfKErrno}, []string{"Errno(" + e.Error() + ")"}
@@ -330,10 +337,9 @@ func vfLeaf(rt *rapid.T, c *vfChain) {
 func vfParent(rt *rapid.T, c *vfChain) {
 	tk := c.tokens
 	child := c.err
-	k := rapid.IntRange(0, 99).Draw(rt, "parentKind")
 	var kind, descr string
-	switch {
-	case k < 50:
+	switch k := rapid.SampledFrom(vfParentSlots).Draw(rt, "parentKind"); k {
+	case vfKOp:
 		oe := &net.OpError{Op: rapid.SampledFrom(vfOps).Draw(rt, "op"), Net: rapid.SampledFrom(vfNets).Draw(rt, "net"), Err: child}
 		d := "OpError{" + oe.Op + " " + oe.Net
 		if rapid.IntRange(0, 2).Draw(rt, "hasSource") == 0 {
@@ -351,17 +357,17 @@ func vfParent(rt *rapid.T, c *vfChain) {
 			c.bearing = true
 		}
 		c.err, kind, descr = oe, vfKOp, d+"}"
-	case k < 62:
+	case vfKURL:
 		scheme := rapid.SampledFrom([]string{"http", "https", "socks5", "socks4a"}).Draw(rt, "scheme")
 		u := scheme + "://" + tk.addrString(rt) + "/"
 		c.err = &url.Error{Op: rapid.SampledFrom([]string{"Get", "Post", "parse", "Connect"}).Draw(rt, "urlOp"), URL: u, Err: child}
 		c.bearing = true
 		kind, descr = vfKURL, "url.Error{"+scheme+"}"
-	case k < 74:
+	case vfKSyscall:
 		sc := rapid.SampledFrom(vfSyscalls).Draw(rt, "syscall")
 		c.err = &os.SyscallError{Syscall: sc, Err: child}
 		kind, descr = vfKSyscall, "SyscallError{"+sc+"}"
-	case k < 90:
+	case vfKWrap:
 		w := rapid.SampledFrom(vfWrapWords).Draw(rt, "wrapWord")
 		c.err = fmt.Errorf(w+": %w", child)
 		kind, descr = vfKWrap, "Errorf("+w+": %w)"
@@ -410,7 +416,7 @@ func vfSetMode(t interface{ Fatalf(string, ...any) }, unsafe bool, withFile bool
 		return "default-state"
 	}
 	vfInitCalled = true
-	if withFile && vfFileInits < 16 && vfLogDir != "" {
+	if withFile && vfFileInits < 128 && vfLogDir != "" {
 		// Init(enable=true) opens (and never closes) the log file: bounded use.
 		vfFileInits++
 		if err := Init(true, filepath.Join(vfLogDir, "obfs4proxy.log"), unsafe); err != nil {
@@ -668,7 +674,7 @@ type vfReal struct {
 func vfRealError(rt *rapid.T, tk *vfTokens) vfReal {
 	kinds := []string{"dial-loopback-closed", "dial-missing-port", "dial-invalid-port", "dial-unknown-service", "dial-bad-network",
 		"listen-nonlocal", "listen-missing-port", "dial-unresolvable-offline", "resolver-socket-error", "dial-via-resolver-socket-error",
-		"dial-nonlocal", "parse", "lookupaddr", "http-get", "resolve-addr"}
+		"dial-nonlocal-ip4", "dial-nonlocal-ip6", "parse", "lookupaddr", "http-get", "resolve-addr"}
 	kind := rapid.SampledFrom(kinds).Draw(rt, "realKind")
 	vfSlowMu.Lock()
 	slow := vfSlowKind[kind]
@@ -771,8 +777,11 @@ func vfRealError(rt *rapid.T, tk *vfTokens) vfReal {
 				tk.add(h)
 			}
 		}
-	case "dial-nonlocal":
-		c, e := d.Dial("tcp", net.JoinHostPort(tk.ip(rt).String(), port))
+	case "dial-nonlocal-ip4":
+		c, e := d.Dial("tcp", net.JoinHostPort(tk.ip4(rt).String(), port))
+		err = closeIf(c, e)
+	case "dial-nonlocal-ip6":
+		c, e := d.Dial("tcp", net.JoinHostPort(tk.ip6(rt).String(), port))
 		err = closeIf(c, e)
 	case "parse":
 		switch rapid.IntRange(0, 2).Draw(rt, "pk") {
